@@ -38,9 +38,6 @@ Proof. vm_compute. reflexivity. Qed.
 Lemma tie_types_all : types_all = map N.of_nat (seq (N.to_nat check_error_syntax) (N.to_nat (check_error_max - check_error_syntax))).
 Proof. vm_compute. reflexivity. Qed.
 
-(* the "group of five" of IsSpecialCheck *)
-Lemma tie_special : map (fun name => err_type_of name err_types) GenFlags.special_types = map Some Config.special_types.
-Proof. vm_compute. reflexivity. Qed.
 
 (* handleNotJSONCheckFlag walks CheckErrorSyntax .. CheckErrorMax-1 in both branches *)
 Lemma tie_flag_loops :
@@ -51,15 +48,83 @@ Proof. vm_compute. reflexivity. Qed.
 Lemma tie_flag_count : N.of_nat (List.length GenFlags.init_flags) = 26.
 Proof. vm_compute. reflexivity. Qed.
 
-(* which variant of the model describes the code NOW: the repaired one iff no regexp.MustCompile on user text is left and
-   IntialGlobalVar allocates IgnoreVarMap
-   (extracted; the correspondence check runs the model with this value) *)
-Definition fixed_regexp_now : bool := negb GenFlags.must_compile_user_text && GenFlags.var_map_allocated_at_init.
+(* ---------- which variant of the model describes the code NOW ---------- *)
 
-(* the code in /repo is the repaired variant (both fix: commits are in place): re-proved against the regenerated table on
-   every run - re-introducing MustCompile on user text or dropping the allocation breaks this proof *)
-Lemma tie_repaired_now : fixed_regexp_now = true.
+Fixpoint list_eqb {A} (eqb : A -> A -> bool) (l1 l2 : list A) {struct l1} : bool :=
+  match l1, l2 with
+  | [], [] => true
+  | x :: l1', y :: l2' => eqb x y && list_eqb eqb l1' l2'
+  | _, _ => false
+  end.
+Definition type_named (name : string) (t : N) : bool :=
+  match err_type_of name err_types with Some x => x =? t | None => false end.
+
+(* fx_regexp: no regexp.MustCompile on user text is left and IntialGlobalVar allocates IgnoreVarMap *)
+Definition fx_regexp_now : bool := negb GenFlags.must_compile_user_text && GenFlags.var_map_allocated_at_init.
+
+(* fx_gate: the errTypeList of IsSpecialCheck as it is in the code (a name that is not an error type constant
+   would become 0, which is no diagnostic type; tie_special below excludes it) *)
+Definition fx_gate_now : list N :=
+  map (fun name => match err_type_of name err_types with Some t => t | None => 0 end) GenFlags.special_types.
+
+(* fx_coupled: every use of IsGlobalIgnoreErrType / IsIgnoreErrorFile inside check/analysis, as a table.  The two
+   early returns that used to look at ONE of the two types they stand in front of (checkLocVarCall: 4 for 4 and 17,
+   cgFuncCallParamCheck: 10 for 10 and 24) name both now, and the analysis no longer asks the choke point about another
+   file (findTableDefine: the type-2 rules of the imported file).  Any other table is a shape nobody has looked at: it
+   counts as not repaired (Properties/C17.v C17_code_is_deployed_variant then fails, and the legs compare the code
+   with the unrepaired variant). *)
+Definition guards_table (repaired : bool) : list (string * (string * list string)) :=
+  [("checkAssignTypeSame", ("return", ["CheckErrorAssignType"]));
+   ("checkBinopExpTypeSame", ("return", ["CheckErrorBinopType"]));
+   ("checkConstAssgin", ("return", ["CheckErrorConstAssign"]));
+   ("checkEnum", ("return", ["CheckErrorEnumValue"]));
+   ("funcCallParamTypeCheck", ("return", ["CheckErrorCallParamType"]));
+   ("funcReturnCheck", ("return", ["CheckErrorFuncRetErr"]));
+   ("checkLocFuncCall", ("return", ["CheckErrorLocFuncNotCall"]));
+   ("checkLocVarCall", ("return", if repaired then ["CheckErrorLocalNoUse"; "CheckErrorNoUseAssign"] else ["CheckErrorLocalNoUse"]));
+   ("CheckTableDeclAssign", ("return", ["CheckErrorAssignType"]));
+   ("CheckTableClassField", ("return", ["CheckErrorClassField"]));
+   ("checkTableAccess", ("return", ["CheckErrorClassField"]));
+   ("cgBinopExp", ("enter", ["CheckErrorFloatEq"]));
+   ("cgFuncCallParamCheck", ("return", if repaired then ["CheckErrorCallParam"; "CheckErrorCallParamType"] else ["CheckErrorCallParam"]));
+   ("cgIfStat", ("enter", ["CheckErrorDuplicateIf"]));
+   ("cgAssignStat", ("enter", ["CheckErrorSelfAssign"]))]%string.
+Definition chokes_table (repaired : bool) : list (string * (string * string)) :=
+  if repaired then [] else [("findTableDefine", ("referFile.Name", "CheckErrorNoDefine"))]%string.
+Definition guard_eqb (a b : string * (string * list string)) : bool :=
+  String.eqb (fst a) (fst b) && String.eqb (fst (snd a)) (fst (snd b)) && list_eqb String.eqb (snd (snd a)) (snd (snd b)).
+Definition choke_eqb (a b : string * (string * string)) : bool :=
+  String.eqb (fst a) (fst b) && String.eqb (fst (snd a)) (fst (snd b)) && String.eqb (snd (snd a)) (snd (snd b)).
+Definition coupled_shape (repaired : bool) : bool :=
+  list_eqb guard_eqb GenFlags.ignore_guards (guards_table repaired)
+  && list_eqb choke_eqb GenFlags.analysis_choke_calls (chokes_table repaired).
+Definition fx_coupled_now : bool := coupled_shape true.
+
+(* evaluated here (the table is regenerated on every run), so that the extracted constant is a record of booleans *)
+Definition fixes_now : fixes :=
+  Eval vm_compute in
+    {| fx_regexp := fx_regexp_now; fx_gate := fx_gate_now; fx_coupled := fx_coupled_now;
+       fx_dead := GenFlags.client_opens_types;      (* handleNotJSONCheckFlag writes OpenErrorTypeMap[i] = true *)
+       fx_dup := GenFlags.file_rules_merged |}.     (* ReadConfig reads IgnoreFileErrTypesMap[name] before assigning *)
+
+Lemma tie_fixes_now :
+  fixes_now = {| fx_regexp := fx_regexp_now; fx_gate := fx_gate_now; fx_coupled := fx_coupled_now;
+                 fx_dead := GenFlags.client_opens_types; fx_dup := GenFlags.file_rules_merged |}.
 Proof. vm_compute. reflexivity. Qed.
+
+(* the gate list of the model variant IS the list in the code (every element an error type constant) *)
+Lemma tie_special :
+  map (fun name => err_type_of name err_types) GenFlags.special_types = map Some (gate_types fixes_now).
+Proof. vm_compute. reflexivity. Qed.
+
+(* the white-listed types: exactly those some check looks up in OpenErrorTypeMap *)
+Lemma tie_open_required :
+  forallb (fun t => Bool.eqb (open_required t) (existsb (fun p => type_named (snd p) t) GenFlags.open_lookups)) types_all = true.
+Proof. vm_compute. reflexivity. Qed.
+
+(* Whether the code is the fully repaired variant is decided in Properties/C17.v (C17_code_is_deployed_variant:
+   fixes_now = deployed, C17_code_is_repaired_variant: fx_regexp fixes_now = true); this file compiles for every state
+   of the code the translator can read, so that the extracted model always exists. *)
 
 (* the statement of C17_flag_type_bijection, over the generated lists *)
 Lemma flag_type_bijection :
